@@ -369,7 +369,7 @@ func runDECODEBOUNDS(c *Ctx) {
 			if !ok {
 				continue
 			}
-			sc := call.Call.StaticCallee()
+			sc := ir.Callee(call.Call)
 			if sc == nil || (sc.String() != "encoding/binary.Uvarint" && sc.String() != "encoding/binary.Varint") || call.Referrers() == nil {
 				continue
 			}
@@ -409,7 +409,7 @@ func runDECODEBOUNDS(c *Ctx) {
 			if !ok {
 				continue
 			}
-			if sc := call.Call.StaticCallee(); sc != nil && (sc.String() == "encoding/binary.Uvarint" || sc.String() == "encoding/binary.Varint") && call.Referrers() != nil {
+			if sc := ir.Callee(call.Call); sc != nil && (sc.String() == "encoding/binary.Uvarint" || sc.String() == "encoding/binary.Varint") && call.Referrers() != nil {
 				for _, r := range *call.Referrers() {
 					if ex, ok := r.(*ssa.Extract); ok && ex.Index == 0 {
 						lens[ex] = true
@@ -523,7 +523,7 @@ func runXCOPYFLAGS(c *Ctx) {
 	// the copy function: a callee of ToShared on the receiver that returns only fresh nodes
 	var cp *ssa.Function
 	for _, ci := range CallsOf(ts) {
-		if f := ci.Common().StaticCallee(); f != nil && f != ts && isNodePtrResult(f) && A.returns(f, 0, 0) {
+		if f := ir.Callee(ci.Common()); f != nil && f != ts && isNodePtrResult(f) && A.returns(f, 0, 0) {
 			cp = f
 		}
 	}
